@@ -1052,6 +1052,16 @@ async fn run() {
                         o => panic!("bad request {o}"),
                     },
                     Lp::V5(c, _) => match t[1] {
+                        // SEND PUB <qos> <id> <topic> <payload> [<topic alias|->]   (the alias: v5 only)
+                        "PUB" if t.len() > 6 && t[6] != "-" => c
+                            .try_publish_with_properties(
+                                format!("t{}", t[4]),
+                                t5::qos(t[2]),
+                                false,
+                                t[5].as_bytes().to_vec(),
+                                rumqttc::v5::mqttbytes::v5::PublishProperties { topic_alias: Some(num(t[6])), ..Default::default() },
+                            )
+                            .is_ok(),
                         "PUB" => c.try_publish(format!("t{}", t[4]), t5::qos(t[2]), false, t[5].as_bytes().to_vec()).is_ok(),
                         "SUB" => c.try_subscribe("f0", rumqttc::v5::mqttbytes::QoS::AtMostOnce).is_ok(),
                         "UNSUB" => c.try_unsubscribe("f0").is_ok(),
